@@ -9,7 +9,7 @@ CLAIMED = {
          'Actor handlers are atomic between awaits in SIM; "start" = beginning of the build cycle (where the start condition is evaluated) and the script spawn.', 'DESIGN.md 4/C01'),
  'C02': ('exploration', 'property-based testing (proptest): generated declarations, trees and edit histories around the real incremental step, reference snapshot model as oracle (skipped => unchanged)',
          'Generated histories between two calls of the real incremental::run on real scratch trees, decided against an independent snapshot model.',
-         'In-crate call of the incremental runner with a harness future standing for the script; files only (no symlinks).', 'DESIGN.md 4/C02'),
+         'In-crate call of the incremental runner with a harness future standing for the script; a BB part runs the same histories through the real binary and a BB-wide part records many states concurrently; links to regular files are part of the model (read through the link).', 'DESIGN.md 4/C02'),
  'C03': ('exploration', 'property-based testing (proptest): resource-preserving histories and repeated invocations of the real incremental step; same reference model (unchanged => skipped)',
          'Generated layouts (multi-project, colliding command text / relative paths, inherited resources) x neutral histories x 2-4 invocations.',
          'Premise (state storable) evaluated by the harness.', 'DESIGN.md 4/C03'),
@@ -32,7 +32,7 @@ CLAIMED = {
          'Generated project files with valid and broken reference graphs; verdict and resolved set compared.',
          'Reference resolver written from the statement.', 'DESIGN.md 4/C09'),
  'C10': ('exploration', 'property-based testing (proptest) of black-box exit scenarios: generated graph x exit cause x instant (rendezvous), latency bound and /proc marker-scan oracle',
-         'Generated scenarios against the real binary with real signals and processes.',
+         'Generated scenarios against the real binary with real signals and processes, including processes replaced after input changes in watch mode and 1/2/4/default runtime threads.',
          'One wall-clock bound (5 s vs scripts that sleep 28 h); exec-form scripts.', 'DESIGN.md 4/C10'),
  'C11': ('exploration', 'property-based testing (proptest) over service/build/aggregate graphs and schedules (SIM), keep-alive and alternation oracles',
          'Generated graphs x requested subsets x schedules (+ notices in watch mode).',
@@ -46,8 +46,8 @@ CLAIMED = {
  'C14': ('exploration', 'property-based testing (proptest) of grammar-generated project sets with injected defects against an independent validator; determinism over repeated loads',
          'Generated project sets with defects of known verdict; accept/reject and meaning of names compared over 8 loads.',
          'Validator over the generated AST; error texts not compared.', 'DESIGN.md 4/C14'),
- 'C15': ('exploration', 'property-based testing (proptest): generated trees and declarations, real lister vs independent reference walker (MUST subset result subset MAY), watcher predicate agreement',
-         'Generated trees with odd names, .zinoma at any depth, symlinks.',
+ 'C15': ('exploration', 'property-based testing (proptest): generated trees and declarations, real lister vs independent reference walker (regular files and link entries to regular files MUST be denoted, nothing else may be), watcher predicate agreement',
+         'Generated trees with odd names, .zinoma at any depth, links to files, to directories, outside the tree and dangling.',
          'Listed paths never symlinks / .zinoma.', 'DESIGN.md 4/C15'),
  'C19': ('exploration', 'property-based testing (proptest): generated project sets with overlapping target names; name-set equality, spelling and bare-reference oracles on the real loader/resolver',
          'Generated project sets x requested spellings x references.',
@@ -59,7 +59,7 @@ CLAIMED = {
          'Generated histories over entry projects, spellings, relative/absolute project paths, --clean and failures.',
          'Targets in flight during a failing invocation are "unknown" until re-observed.', 'DESIGN.md 4/C18'),
  'C20': ('exploration', 'metamorphic property testing (proptest): aggregate vs its dependencies, on controlled schedules (SIM) and through the real binary (BB)',
-         'Pairs of runs compared on sets and verdicts.',
+         'Pairs of runs compared on sets and verdicts; wide aggregates (up to 1 500 members) against their members through the real binary.',
          'With a failing member only the verdict is compared.', 'DESIGN.md 4/C20'),
  'C17': ('exploration', 'property-based testing (proptest) with withheld completions (SIM): ready => started at message-quiescent points',
          'Generated graphs x schedules in which scripts stay running as long as possible.',
